@@ -122,3 +122,101 @@ def _np_array(E, node, st):
 
 
 calls.NP_EXT["np.array"] = _np_array
+
+
+# ---- (3) a[:] = scalar on a 1-D heap array: every element becomes that scalar.
+def _full_fill(E, t, v, st):
+    if not (isinstance(t.slice, ast.Slice) and t.slice.lower is None and t.slice.upper is None and t.slice.step is None
+            and isinstance(t.value, ast.Name)):
+        return False
+    base = st.env.get(t.value.id)
+    if not isinstance(base, Ref) or isinstance(v, (Ref, Arr, tuple)) or sort_kind(num_of_bool(v)) not in ("int", "real"):
+        return False
+    arr = st.heap[base.id]
+    if arr.rank != 1:
+        return False
+    st.heap[base.id] = Arr(z3.K(I, E.elem_coerce(num_of_bool(v), arr.elem)), arr.shape, arr.elem)
+    return True
+
+
+_assign_2 = Engine.assign
+
+
+def _assign3(self, t, v, st, checked=False):
+    if isinstance(t, ast.Subscript) and _full_fill(self, t, v, st):
+        return
+    return _assign_2(self, t, v, st, checked)
+
+
+Engine.assign = _assign3
+
+
+# ---- (4) gather  a[rows]  with `rows` a 1-D int array of statically known length n (numpy fancy indexing on axis 0):
+#      fresh array g of shape (n,) + a.shape[1:] with g[j] == a[rows[j]]; every rows[j] must be a valid non-negative index (R3).
+def _static_len(t, st):
+    """a literal length, or one fixed by a path-condition fact of the syntactic form  t == <numeral>"""
+    if z3.is_int_value(t):
+        return t.as_long()
+    for f in st.pc:
+        if z3.is_eq(f):
+            a, b = f.children()
+            if a.eq(t) and z3.is_int_value(b):
+                return b.as_long()
+            if b.eq(t) and z3.is_int_value(a):
+                return a.as_long()
+    return None
+
+
+def _subscript(self, node, st):
+    if not isinstance(node.slice, (ast.Slice, ast.Tuple)):
+        base = self.ev(node.value, st)
+        if isinstance(base, (Ref, Arr)):
+            iv = self.ev(node.slice, st)
+            if isinstance(iv, (Ref, Arr)):
+                arr, rows = self.deref(base, st), self.deref(iv, st)
+                n = _static_len(toz(rows.shape[0]), st)
+                if rows.rank == 1 and rows.elem == "int" and n is not None and arr.rank >= 1:
+                    data = self.fresh("gather", arr_sort(arr.elem, arr.rank))
+                    for j in range(n):
+                        rj = z3.Select(rows.data, z3.IntVal(j))
+                        if not self.spec_mode:
+                            self.emit("index:%s@%s" % (getattr(node.value, "id", "expr"), self.cur_line), st,
+                                      z3.And(rj >= 0, rj < toz(arr.shape[0])), "index")
+                        st.pc.append(z3.Select(data, z3.IntVal(j)) == z3.Select(arr.data, rj))
+                    return Arr(data, [z3.IntVal(n)] + list(arr.shape[1:]), arr.elem)
+                raise OutsideSubset("fancy indexing (line %s)" % getattr(node, "lineno", "?"))
+    return _orig_sub(self, node, st)
+
+
+Engine.ev_Subscript = _subscript
+
+
+# ---- (5) np.max / np.min of a 1-D array: m with  forall i: a[i] <= m  and  exists i: a[i] == m  (numpy raises on an empty array: obligation)
+def _np_extreme(path):
+    is_max = path.endswith("max")
+
+    def h(E, node, st):
+        if len(node.args) == 1 and not node.keywords:
+            v = E.ev(node.args[0], st)
+            if isinstance(v, (Ref, Arr)):
+                a = E.deref(v, st)
+                if a.rank != 1 or a.elem not in ("int", "real"):
+                    raise OutsideSubset(path + " of rank-%d %s array" % (a.rank, a.elem))
+                E.emit("nonempty:%s@%s" % (path, E.cur_line), st, toz(a.shape[0]) > 0, "index")
+                m = E.fresh(path[3:], I if a.elem == "int" else R)
+                i, j = E.fresh("i", I), E.fresh("j", I)
+                el = z3.Select(a.data, i)
+                st.pc.append(z3.ForAll([i], z3.Implies(z3.And(i >= 0, i < toz(a.shape[0])), el <= m if is_max else el >= m), patterns=[el]))
+                st.pc.append(z3.Exists([j], z3.And(j >= 0, j < toz(a.shape[0]), z3.Select(a.data, j) == m)))
+                return m
+        saved = calls.NP_EXT.pop(path)
+        try:
+            return calls.np_call(E, path, node, st)
+        finally:
+            calls.NP_EXT[path] = saved
+    return h
+
+
+for _p in ("np.max", "np.min"):
+    if _p not in calls.NP_EXT:
+        calls.NP_EXT[_p] = _np_extreme(_p)
